@@ -379,10 +379,24 @@ func c13CLI(c *Ctx) {
 	tool := filepath.Join(root, "tool.sh")
 	_ = os.WriteFile(tool, []byte("#!/bin/sh\necho tool\n"), 0o755)
 	_ = os.Chtimes(tool, time.Unix(1600000000, 0), time.Unix(1600000000, 0))
+	// a small tree addressed to one packager, and a file for every packager: half of the override blocks restate the
+	// contents, the other half only change the umask and the dependencies – the base contents then get the block's umask
+	treeDir := filepath.Join(root, "treedir")
+	_ = os.MkdirAll(filepath.Join(treeDir, "sub"), 0o755)
+	for _, f := range []string{"a.txt", "sub/b.txt"} {
+		_ = os.WriteFile(filepath.Join(treeDir, f), []byte(f), 0o666)
+		_ = os.Chmod(filepath.Join(treeDir, f), 0o666)
+	}
+	for _, f := range []string{"sub/b.txt", "sub", "a.txt", ""} {
+		_ = os.Chtimes(filepath.Join(treeDir, f), time.Unix(1600000100, 0), time.Unix(1600000100, 0))
+	}
 	var y strings.Builder
-	y.WriteString("name: verifpkg\narch: amd64\nplatform: linux\nversion: 1.2.3\nmaintainer: Verif <verif@example.com>\ndescription: override blocks through the command\nmtime: 2023-11-14T22:13:20Z\ndepends: [base-dependency]\nrpm:\n  buildhost: buildhost.example\ncontents:\n- src: " + tool + "\n  dst: /usr/bin/tool\noverrides:\n")
-	for _, f := range Formats {
-		fmt.Fprintf(&y, "  %s:\n    depends: [only-%s]\n    umask: 0o077\n    contents:\n    - src: %s\n      dst: /usr/bin/tool\n    - src: %s\n      dst: /usr/bin/tool-%s\n", f, f, tool, tool, f)
+	y.WriteString("name: verifpkg\narch: amd64\nplatform: linux\nversion: 1.2.3\nmaintainer: Verif <verif@example.com>\ndescription: override blocks through the command\nmtime: 2023-11-14T22:13:20Z\ndepends: [base-dependency]\nrpm:\n  buildhost: buildhost.example\ncontents:\n- src: " + tool + "\n  dst: /usr/bin/tool\n- src: " + treeDir + "\n  dst: /opt/only-rpm\n  type: tree\n  packager: rpm\n- src: " + filepath.Join(treeDir, "a.txt") + "\n  dst: /usr/share/verifpkg/a.txt\noverrides:\n")
+	for i, f := range Formats {
+		fmt.Fprintf(&y, "  %s:\n    depends: [only-%s]\n    umask: 0o077\n", f, f)
+		if i%2 == 1 {
+			fmt.Fprintf(&y, "    contents:\n    - src: %s\n      dst: /usr/bin/tool\n    - src: %s\n      dst: /usr/bin/tool-%s\n", tool, tool, f)
+		}
 	}
 	for i, f := range Formats {
 		cfg, perr := nfpm.Parse(strings.NewReader(y.String()))
@@ -769,5 +783,66 @@ func runC13(c *Ctx) error {
 			c.Rep.Find(report.Finding{Property: "C13", Family: "override-block-names", Shape: "validate-rejects-registered-override", What: fmt.Sprintf("Validate rejects the override block of the registered packager %s: %v", f, err), Input: map[string]any{"overrides": f}})
 		}
 	}
+	c13GetResultsAreIndependent(c)
 	return nil
+}
+
+// c13GetResultsAreIndependent: what Config.Get hands out belongs to the caller. Packagers complete and rewrite the
+// settings they are given (defaults, architecture names, prepared contents); a caller may too. Whatever is done to one
+// result, the next Get – of the same or of another format, with or without an override block – yields the effective
+// settings of the configuration.
+func c13GetResultsAreIndependent(c *Ctx) {
+	fam := c.Rep.Family("get-results-are-independent", "exhaustive: a configuration with override blocks for two of the five formats; for every ordered pair of formats (25): Get(first), the result rewritten the way a packager does (name, architecture, priority, maintainer, dependencies appended, contents replaced) and then packaged, Get(second): every overridable leaf and the identity fields of the second result against Get(second) of an untouched copy of the configuration; the two results must not be the same object; non-trivial = always")
+	fam.Exhaustive = true
+	tree, err := MkTree(filepath.Join(c.Tmp, "c13indep"), 0)
+	if err != nil {
+		c.Rep.Note("get-results-are-independent: %v", err)
+		return
+	}
+	mk := func() *nfpm.Config {
+		s := &PkgSpec{Raw: []wire.Content{{Src: filepath.Join(tree.Root, "bin/tool"), Dst: "/usr/bin/tool"}, {Src: filepath.Join(tree.Root, "etc/app.conf"), Dst: "/etc/app/rpm.conf", Type: "config", Packager: "rpm"}}, Umask: 0o022, MTime: 1700000000}
+		info := s.Info()
+		info.Depends = []string{"base-dep"}
+		return &nfpm.Config{Info: *info, Overrides: map[string]*nfpm.Overridables{"apk": {Depends: []string{"only-apk"}}, "ipk": {Depends: []string{"only-ipk"}}}}
+	}
+	view := func(i *nfpm.Info) string {
+		var b strings.Builder
+		fmt.Fprintf(&b, "name=%q arch=%q priority=%q maintainer=%q version=%q|", i.Name, i.Arch, i.Priority, i.Maintainer, i.Version)
+		for _, l := range leavesOf(&i.Overridables) {
+			fmt.Fprintf(&b, "%v;", l)
+		}
+		for _, ct := range i.Contents {
+			fmt.Fprintf(&b, "[%s->%s %s %s]", ct.Source, ct.Destination, ct.Type, ct.Packager)
+		}
+		return b.String()
+	}
+	for _, f1 := range Formats {
+		for _, f2 := range Formats {
+			cfg, clean := mk(), mk()
+			a, err := cfg.Get(f1)
+			if err != nil {
+				continue
+			}
+			a.Name, a.Arch, a.Priority, a.Maintainer = "renamed-by-caller", "x86_64", "optional", "Someone <else@example.com>"
+			a.Depends = append(a.Depends, "added-by-caller")
+			_, _ = BuildPkg(f1, nfpm.WithDefaults(a))
+			a.Contents = nil
+			b, err2 := cfg.Get(f2)
+			want, err3 := clean.Get(f2)
+			fam.Eval(f1+"|"+f2, true)
+			if err2 != nil || err3 != nil {
+				continue
+			}
+			in := map[string]any{"first": f1, "second": f2, "override_blocks": []string{"apk", "ipk"}}
+			if a == b {
+				c.Rep.Find(report.Finding{Property: "C13", Family: "get-results-are-independent", Shape: "get-hands-out-one-object-twice",
+					What: fmt.Sprintf("Config.Get(%q) and Config.Get(%q) return the same *Info: the settings of one packaging are the other's", f1, f2), Input: in})
+				continue
+			}
+			if view(b) != view(want) {
+				c.Rep.Find(report.Finding{Property: "C13", Family: "get-results-are-independent", Shape: "effective-settings-depend-on-an-earlier-result",
+					What: fmt.Sprintf("Config.Get(%q) after the result of Get(%q) was completed and packaged: %s; from an untouched configuration: %s", f2, f1, view(b), view(want)), Input: in})
+			}
+		}
+	}
 }
